@@ -7,10 +7,16 @@ import (
 	"encoding/json"
 	"encoding/hex"
 	"fmt"
+	"math/big"
 	"strconv"
 	"strings"
+	"sync"
 
+	ethcommon "github.com/ethereum/go-ethereum/common"
+	ethcrypto "github.com/ethereum/go-ethereum/crypto"
+	"github.com/meshplus/bitxhub-kit/crypto/asym/ecdsa"
 	"github.com/meshplus/bitxhub-kit/types"
+	ethtypes "github.com/meshplus/eth-kit/types"
 	"github.com/meshplus/bitxhub-model/constant"
 	"github.com/meshplus/bitxhub-model/pb"
 )
@@ -46,6 +52,38 @@ func (n *node) xferTx(from string, to *types.Address, amount string) *pb.BxhTran
 	td := &pb.TransactionData{Type: pb.TransactionData_NORMAL, Amount: amount}
 	payload, _ := td.Marshal()
 	return signTx(a, &pb.BxhTransaction{From: a.addr, To: to, Payload: payload, Timestamp: nextTs(), Nonce: n.nextNonce(from)})
+}
+
+var eip155Once sync.Once
+
+// ethTx builds a legacy Ethereum transaction (EIP-155, chain id of the hub) signed by the named account
+func (n *node) ethTx(from string, to *types.Address, value, gas, gasPrice string) (pb.Transaction, error) {
+	eip155Once.Do(func() { ethtypes.InitEIP155Signer(big.NewInt(bxhID)) })
+	a := acct(from)
+	k, ok := a.priv.(*ecdsa.PrivateKey)
+	if !ok {
+		return nil, fmt.Errorf("not an ecdsa key")
+	}
+	v, ok1 := new(big.Int).SetString(value, 10)
+	gp, ok2 := new(big.Int).SetString(gasPrice, 10)
+	g, err := strconv.ParseUint(gas, 10, 64)
+	if !ok1 || !ok2 || err != nil {
+		return nil, fmt.Errorf("bad eth numbers")
+	}
+	dst := ethcommon.BytesToAddress(to.Bytes())
+	inner := &ethtypes.LegacyTx{Nonce: n.nextNonce(from), GasPrice: gp, Gas: g, To: &dst, Value: v}
+	tx := &ethtypes.EthTransaction{Inner: inner}
+	sig, err := ethcrypto.Sign(tx.GetSignHash().Bytes(), k.K)
+	if err != nil {
+		return nil, err
+	}
+	inner.R = new(big.Int).SetBytes(sig[:32])
+	inner.S = new(big.Int).SetBytes(sig[32:64])
+	inner.V = big.NewInt(int64(sig[64]) + 35 + 2*bxhID)
+	if tx.GetFrom() == nil {
+		return nil, fmt.Errorf("eth signature does not recover")
+	}
+	return tx, nil
 }
 
 func (n *node) bvmTx(from string, contract *types.Address, method string, args ...*pb.Arg) *pb.BxhTransaction {
